@@ -88,6 +88,12 @@ class System(object):
                     known[v] = f.const
                     forms.pop(v, None)
                     changed = True
+                elif set(f.coef.keys()) == {v} and f.coef[v] != 1:
+                    # v = c*v + d with c != 1 determines v on its own (a self-referential definition of a constant):
+                    # fold it, so that products with other unknowns stay affine
+                    known[v] = f.const / (1 - f.coef[v])
+                    forms.pop(v, None)
+                    changed = True
                 else:
                     forms[v] = f
                     still.append(v)
